@@ -37,6 +37,8 @@ pub fn semver_tag() -> BoxedStrategy<String> {
         2 => (0u64..30, 0u64..30, 0u64..30, pick(&["alpha", "beta", "rc"]), 0u64..50, 0u64..50).prop_map(|(a, b, c, l, n, p)| format!("v{a}.{b}.{c}-{l}.{n}.post.{p}")),
         1 => (0u64..30, 0u64..30, 0u64..30, 1u64..5, 0u64..50, 0u64..50).prop_map(|(a, b, c, e, p, d)| format!("{a}.{b}.{c}-epoch.{e}.post.{p}.dev.{d}")),
         1 => pick(&["1.2.3+build.5", "0.0.0", "1.0.0-alpha", "1.0.0-x.y.z", "1.0.0-0.3.7", "1.0.0-rc.1+sha.abc", "2.0.0-post.3", "1.0.0-dev.1"]).prop_map(String::from),
+        // a label without a number, alone or followed by other parts
+        2 => (0u64..30, 0u64..30, 0u64..30, pick(&["alpha", "beta", "rc"]), pick(&["", ".post.2", ".dev.1", ".post", "+b.1"])).prop_map(|(a, b, c, l, rest)| format!("{a}.{b}.{c}-{l}{rest}")),
     ]
     .boxed()
 }
